@@ -122,23 +122,64 @@ def evalf(f, val: dict[str, bool]) -> bool:
     return any(evalf(x, val) for x in f[1:])
 
 
+def _assign(f, name: str, value: bool):
+    """f with the atom `name` fixed to `value`, simplified"""
+    k = f[0]
+    if k == 'const':
+        return f
+    if k == 'atom':
+        return ('const', value) if f[1] == name else f
+    if k == 'not':
+        return f_not(_assign(f[1], name, value))
+    parts = [_assign(x, name, value) for x in f[1:]]
+    return f_and(*parts) if k == 'and' else f_or(*parts)
+
+
+class _Budget(Exception):
+    pass
+
+
+def _sat(f, budget: list[int]) -> bool:
+    """DPLL on the formula tree: unit literals of a top-level conjunction first, then case split"""
+    while True:
+        if f[0] == 'const':
+            return f[1]
+        budget[0] -= 1
+        if budget[0] < 0:
+            raise _Budget()
+        lit = None
+        if f[0] == 'atom':
+            return True
+        if f[0] == 'not' and f[1][0] == 'atom':
+            return True
+        if f[0] == 'and':
+            for x in f[1:]:
+                if x[0] == 'atom':
+                    lit = (x[1], True)
+                    break
+                if x[0] == 'not' and x[1][0] == 'atom':
+                    lit = (x[1][1], False)
+                    break
+        if lit is not None:
+            f = _assign(f, lit[0], lit[1])
+            continue
+        name = next(iter(sorted(atoms_of(f))))
+        return _sat(_assign(f, name, True), budget) or _sat(_assign(f, name, False), budget)
+
+
 def entails(premise, goal, limit: int = 14) -> bool | None:
-    """premise |= goal ?  None when there are too many atoms to enumerate"""
-    names = sorted(atoms_of(premise) | atoms_of(goal))
-    if len(names) > limit:
+    """premise |= goal ?  None when the search budget is exhausted"""
+    try:
+        return not _sat(f_and(premise, f_not(goal)), [20000])
+    except _Budget:
         return None
-    for bits in itertools.product((False, True), repeat=len(names)):
-        val = dict(zip(names, bits))
-        if evalf(premise, val) and not evalf(goal, val):
-            return False
-    return True
 
 
 def satisfiable(f, limit: int = 14) -> bool:
-    names = sorted(atoms_of(f))
-    if len(names) > limit:
+    try:
+        return _sat(f, [20000])
+    except _Budget:
         return True
-    return any(evalf(f, dict(zip(names, bits))) for bits in itertools.product((False, True), repeat=len(names)))
 
 
 def show(f) -> str:
